@@ -708,11 +708,13 @@ bool ReadArrayFromTextStream(Array *array, Stream *stream) {
     if (!(*array)[index].UpdateFromTextStream(stream)) return false;
     ++index;
 
-    // If there is a trailing comma, discard it.
+    // If there is a trailing comma, discard it.  The comma is optional:
+    // multiline output puts one element per line with no comma, and
+    // `{0 1 2}` is accepted (see above), so anything else is left for the next
+    // iteration to parse as `}`, `[index]:` or an element.
     if (!DiscardWhitespace(stream)) return false;
     if (!stream->Read(&c)) return false;
     if (c != ',') {
-      if (c != '}') return false;
       if (!stream->Unread(c)) return false;
     }
   }
